@@ -7,6 +7,7 @@ ID=$1; ROOT=${SEED_ROOT:-/tmp/wt}; DEMO=${2:-"bash $ROOT/out/$ID/demo.sh"}
 export GOFLAGS=-mod=mod GOPROXY=off GOSUMDB=off GOTOOLCHAIN=local
 WT=$ROOT/$ID
 cd $WT || exit 2
+[ -f $ROOT/out/$ID/patch.diff ] && [ -f $ROOT/out/$ID/meta.json ] || { echo "deliverables of $ID are not there yet: the worktree is left alone"; echo "NOT CONFIRMED $ID"; exit 2; }
 git checkout -q -- . ; git clean -fdq
 echo "== demo without patch"; eval "$DEMO" > $ROOT/out/$ID/confirm.without.log 2>&1; RC2=$?; tail -2 $ROOT/out/$ID/confirm.without.log; echo "demo-without rc=$RC2"
 git apply $ROOT/out/$ID/patch.diff || { echo "PATCH DOES NOT APPLY"; exit 2; }
